@@ -88,6 +88,8 @@ func C12(c *Ctx) {
 	c.R.Rule("C12-R4", "E7", "one version per call: no Specter.Spec() in the closure of Step/Walk", 2)
 	c.R.Rule("C12-R5", "E1", "Spec.Copy shares no spec-structure object with its receiver", 5)
 	c.R.Rule("C12-R6", "E1", "machines sharing a spec share no script runtime: each execution creates its own", 3)
+	c.R.Rule("C12-R7", "E1", "the action wrapper shared by all machines of a spec keeps no state: no write to its receiver or to package-level storage", 2)
+	c.wrapperEffects("C12-R7", false)
 
 	a, step, walk := c.stepWalkAnalysis()
 	if a == nil {
